@@ -191,7 +191,7 @@ static void end_op(const char *name, const char *result) {
     logbuf = NULL;
   }
   /* the oracle applies to one operation */
-  W.crash_at = W.fail_at = W.short_at = W.shrink_at = W.grow_at = -1;
+  W.crash_at = W.fail_at = W.short_at = W.shrink_at = W.grow_at = W.relink_at = -1;
   W.short_all = 0;
   W.alloc_fail_at = -1;
   afail_rel = -1;
@@ -302,6 +302,7 @@ int drv_world(void) {
       W.short_all = 0;
       W.shrink_at = -1;
       W.grow_at = -1;
+      W.relink_at = -1;
       afail_rel = -1;
       if (!strcmp(t[1], "afail")) {
         afail_rel = atol(t[2]);
@@ -310,6 +311,9 @@ int drv_world(void) {
       } else if (!strcmp(t[1], "grow")) {
         W.grow_at = atol(t[2]);
         W.grow_n = strtoul(t[3], NULL, 10);
+      } else if (!strcmp(t[1], "relink")) {
+        W.relink_at = atol(t[2]);
+        W.relink_n = strtoul(t[3], NULL, 10);
       } else if (!strcmp(t[1], "shrink")) {
         W.shrink_at = atol(t[2]);
         W.shrink_n = strtoul(t[3], NULL, 10);
